@@ -316,7 +316,7 @@ STREAM(md_vmp) {
 // ------------------------------------------------------------------------------------------------------
 // C03 at module level: NTT120 vec_znx_dft -> vec_znx_idft is the identity on int64 (zero-extend / truncate)
 STREAM(md_ntt) {
-  std::vector<uint64_t> dims = thorough ? std::vector<uint64_t>{2, 4, 8, 16, 64, 256, 1024, 4096, 65536} : std::vector<uint64_t>{2, 4, 8, 64, 1024};
+  std::vector<uint64_t> dims = thorough ? std::vector<uint64_t>{1, 2, 4, 8, 16, 64, 256, 1024, 4096, 65536} : std::vector<uint64_t>{1, 2, 4, 8, 64, 1024};
   for (uint64_t n : dims)
     for (int cls = 0; cls < 4; cls++)
       for (int variant = 0; variant < 2; variant++) {
